@@ -30,6 +30,9 @@ pub struct Report {
     pub known: Vec<Known>,
     pub max_samples: usize,
     pub max_violations: usize,
+    /// violations are also appended here as they are found, so that they survive a worker that is
+    /// later aborted by a sanitizer report or the per-case watchdog
+    pub side_path: Option<String>,
 }
 
 impl Report {
@@ -46,6 +49,7 @@ impl Report {
             known: Vec::new(),
             max_samples: 3,
             max_violations: 5,
+            side_path: None,
         }
     }
     pub fn count(&mut self, k: &str, n: u64) {
@@ -71,6 +75,18 @@ impl Report {
     pub fn violation(&mut self, monitor: &str, message: String, case_idx: u64, detail: J) {
         self.count("violations_total", 1);
         if self.violations.len() < self.max_violations {
+            if let Some(p) = &self.side_path {
+                if let Ok(mut f) = std::fs::OpenOptions::new().create(true).append(true).open(p) {
+                    let line = J::obj()
+                        .set("property", J::s(&self.property))
+                        .set("monitor", J::s(monitor))
+                        .set("message", J::s(&message))
+                        .set("case_idx", J::u(case_idx))
+                        .set("detail", detail.clone())
+                        .to_string();
+                    let _ = writeln!(f, "{line}");
+                }
+            }
             self.violations.push(Violation {
                 property: self.property.clone(),
                 monitor: monitor.to_string(),
